@@ -333,7 +333,7 @@ def zoo_statements(variant=0, per_stmt=24):
     import inspect
     import logging
 
-    import sqlglot
+    sqlglot = common.use_sqlglot()  # the tree under test, never whatever `import sqlglot` finds first
     from sqlglot import exp
 
     lg = logging.getLogger("sqlglot")
